@@ -124,6 +124,8 @@ def audit(smt, ref, m, default, ks, probes, ctx):
             ctx.count("lookups_blank")
         else:
             r = cut(smt.get, qb)
+            if not isinstance(r, bytes):
+                raise Violation("smt-lookup", "get(%s) returned a %s, not a byte string" % (hx(qb), type(r).__name__))
             if r != val or cut(smt.__getitem__, qb) != val:
                 raise Violation("smt-lookup", "get(%s)=%s, model says %s" % (hx(qb), hx(r), hx(val)))
             if cut(smt.exists, qb) is not True:
